@@ -622,8 +622,7 @@ func evaluate(cases0 []gen.C08Case, f *lib.Flags, res *lib.Result, st *stats, ve
 		}
 	}()
 	missMemo := map[string]string{}
-	askMissing := func(reported bool, changed int) string {
-		q := fmt.Sprintf("spec.missing %s %d", b01(reported), changed)
+	askSpec := func(q string) string {
 		if a, ok := missMemo[q]; ok {
 			return a
 		}
@@ -639,6 +638,31 @@ func evaluate(cases0 []gen.C08Case, f *lib.Flags, res *lib.Result, st *stats, ve
 		}
 		missMemo[q] = a
 		return a
+	}
+	// spec.refused: the converse clause.  Every deviation of the set (none of them counted as missing by the
+	// plan) is put to spec.target with the steps of its target, on the Go dump of the run WITHOUT the
+	// deviating modules (its final tree: whatever augment stage grafted a node, it is there); when all of
+	// them name a node the specification says what a reported error means.
+	askRefused := func(devs []gen.Deviation, base map[string]rec, allowed, noTarget bool) (string, []string) {
+		allNamed := true
+		var asked []string
+		for _, d := range devs {
+			if d.Missing {
+				allNamed = false
+				continue
+			}
+			t := d
+			t.Spelt = d.Target
+			a := askSpec(targetRequest(t, base))
+			asked = append(asked, d.Arg+" -> "+a)
+			if a != "names" {
+				allNamed = false
+			}
+		}
+		return askSpec(fmt.Sprintf("spec.refused %s %s %s 1", b01(allNamed), b01(allowed), b01(noTarget))), asked
+	}
+	askMissing := func(reported bool, changed int) string {
+		return askSpec(fmt.Sprintf("spec.missing %s %d", b01(reported), changed))
 	}
 	evalUnit := func(i int, u unit, add func(lib.Disagreement)) {
 		it, ow, owo := u.it, u.ow, u.owo
@@ -717,6 +741,9 @@ func evaluate(cases0 []gen.C08Case, f *lib.Flags, res *lib.Result, st *stats, ve
 		p := plans[i]
 		base := bases[i]
 		st.notInBase += int64(len(p.notInBase))
+		if len(p.notInBase) > 0 && os.Getenv("C08_DEBUG") != "" {
+			fmt.Fprintf(os.Stderr, "not in base: %s: %v\n", it.Label, p.notInBase)
+		}
 		// expectations per target
 		specs := map[string]specAns{}
 		var claimed, unclaimed []string
@@ -768,6 +795,10 @@ func evaluate(cases0 []gen.C08Case, f *lib.Flags, res *lib.Result, st *stats, ve
 		for _, c := range deviationStage {
 			stageReached = stageReached || cls[c]
 		}
+		refused, refusedAsked := "", []string(nil)
+		if goErr && len(p.missing) == 0 && len(it.Devs) > 0 && (cls["deviate-no-target"] || (len(claimed) == 0 && len(unclaimed) == 0)) {
+			refused, refusedAsked = askRefused(it.Devs, base, len(claimed) == 0 && len(unclaimed) == 0, cls["deviate-no-target"])
+		}
 		switch {
 		case len(p.missing) > 0 && !goErr:
 			// (iv) a deviation without a target node: not reported; did it change anything?
@@ -796,6 +827,14 @@ func evaluate(cases0 []gen.C08Case, f *lib.Flags, res *lib.Result, st *stats, ve
 				Model:       map[string]any{"must_be_reported": claimed, "spec.missing": askMissing(false, 0)},
 				SpecVerdict: "violates", What: "a deviation that names no schema node was not reported as such (RFC 7950 6.5: each step names a direct child, choice/case too), " +
 					"the errors of the deviation stage are only " + strings.Join(lib.SortedKeys(cls), ",") + ": " + p.missing[0], Replay: u.orig})
+			return
+		case goErr && len(p.missing) == 0 && cls["deviate-no-target"] && strings.HasPrefix(refused, "violates"):
+			// every deviation names a node of the tree the run without the deviating modules yields, and yet the
+			// run says that a target cannot be found (whatever else may be wrong with the statements)
+			add(lib.Disagreement{Kind: "spec", Input: it, Go: lib.Project(ow.Go.Dump, keys, true),
+				Model:       map[string]any{"spec.refused": refused, "spec.target": refusedAsked, "must_be_reported": claimed},
+				SpecVerdict: "violates", What: "an applicable deviation was refused: every deviation names a node of the final tree of the run without the deviating modules " +
+					"(RFC 7950 6.5, spec.target), yet the run reports a missing target and reflects nothing: " + refusedAsked[0] + " [" + refused + "]", Replay: u.orig})
 			return
 		case len(claimed) > 0:
 			if len(p.missing) > 0 && askMissing(true, 0) != "holds" {
@@ -833,8 +872,13 @@ func evaluate(cases0 []gen.C08Case, f *lib.Flags, res *lib.Result, st *stats, ve
 			}
 			return
 		case goErr:
-			add(lib.Disagreement{Kind: "spec", Input: it, Go: lib.Project(ow.Go.Dump, keys, true), Model: "no condition of RFC 7950 7.20.3 is broken",
-				SpecVerdict: "violates", What: "deviations the RFC allows were refused: " + firstErr(ow.Go.Dump), Replay: u.orig})
+			what := "deviations the RFC allows were refused: "
+			if strings.HasPrefix(refused, "violates") {
+				what = "an applicable deviation was refused (every target is a node of the final tree of the run without the deviating modules, no condition of RFC 7950 7.20.3 is broken) [" + refused + "]: "
+			}
+			add(lib.Disagreement{Kind: "spec", Input: it, Go: lib.Project(ow.Go.Dump, keys, true),
+				Model:       map[string]any{"rfc": "no condition of RFC 7950 7.20.3 is broken", "spec.refused": refused, "spec.target": refusedAsked},
+				SpecVerdict: "violates", What: what + firstErr(ow.Go.Dump), Replay: u.orig})
 			return
 		}
 		// no errors: frame and targets
@@ -1077,6 +1121,9 @@ func main() {
 	if f.Thorough() {
 		n = 300000
 	}
+	if os.Getenv("C08_PART") == "late" {
+		n = 0
+	}
 	for i := 0; i < n; i++ {
 		c := gen.C08Random(f.Rand(i))
 		if i%6 == 4 {
@@ -1084,6 +1131,27 @@ func main() {
 		}
 		// histories: one in three of the random sets with a not-supported statement, one in forty of the others
 		if len(c.PathRoots) == 0 && ((c.HasNotSupported() && i%3 == 0) || i%40 == 7) {
+			c.Hist = true
+		}
+		items = append(items, c)
+	}
+	// targets that only the left-over augment stage grafts (gen/c08late.go): random sets of that family
+	nLate := 400
+	if f.Thorough() {
+		nLate = 8000
+	}
+	if os.Getenv("C08_PART") == "late" {
+		// diagnostics only: the enumerated and the random sets of that family on their own
+		items = nil
+		for _, c := range gen.C08Exhaustive() {
+			if strings.HasPrefix(c.Combo, "late-augment/") {
+				items = append(items, c)
+			}
+		}
+	}
+	for i := 0; i < nLate; i++ {
+		c := gen.C08RandomLate(f.Rand(1000000 + i))
+		if c.HasNotSupported() && i%4 == 0 {
 			c.Hist = true
 		}
 		items = append(items, c)
